@@ -1,7 +1,8 @@
 (* C06 -- the built-in Targets behave as a content map plus a reference -> descriptor map.
    Only statements closed by [exact]; the lemmas live in Proofs/Stores.v, the executable
    models (memory store, OCI layout store, abstract specification) in Model/Stores.v. *)
-From Oras Require Import Base.Prelude Model.Stores Proofs.Stores.
+From Oras Require Import Base.Prelude Model.Stores Model.StoresConc Proofs.Stores Proofs.StoresConc.
+From Coq Require Import Permutation.
 
 (* For every history, the memory store (cas.Memory + resolver.Memory + graph.Memory)
    answers exactly like the content map + tag map, and its content/tag maps are the
@@ -111,6 +112,29 @@ Theorem C06_delete_order_free : forall k snap t r,
   get ref_eqb r (untag_fold k snap t) = get ref_eqb r (spec_untag_equal k t).
 Proof. exact untag_fold_order_free. Qed.
 Print Assumptions C06_delete_order_free.
+
+(* ---- concurrency: memory store ---- *)
+
+(* Goroutines run programs of operations; each operation is split into its atomic steps
+   (Load check, LoadOrStore, graph.index under the graph lock, Exists, resolver.Tag under
+   the resolver lock).  For EVERY schedule of those steps that runs all programs to
+   completion, the final content map and resolver are literally those of a sequential
+   execution of the same operations (in the order of their commit steps), and every
+   Predecessors query gets the same answer (as a set). *)
+Theorem C06_quiescent_serialisable_memory : forall (progs : list (list op)) (sched : list nat),
+  let cf := mconf_run (mconf_init progs) sched in
+  quiescent cf = true ->
+  exists order : list op,
+    Permutation order (concat progs) /\
+    let q := fst (run mem_step mem_init order) in
+    m_cas (c_store cf) = m_cas q /\ m_res (c_store cf) = m_res q /\
+    forall n k, In k (map gk (g_predecessors n (m_graph (c_store cf)))) <->
+                In k (map gk (g_predecessors n (m_graph q))).
+Proof. exact quiescent_serialisable_memory. Qed.
+Print Assumptions C06_quiescent_serialisable_memory.
+
+Example C06_ex_quiescent : quiescent (mconf_run (mconf_init cx_progs) cx_sched) = true.
+Proof. exact cx_quiescent. Qed.
 
 (* ---- file store (names, duplicate-name, fallback CAS; options IgnoreNoName, DisableOverwrite) ---- *)
 
